@@ -1641,3 +1641,282 @@ def check_no_stale_masks(ctx, rule: str, module_paths, floor: int = 0) -> int:
                 ctx.violation(rule, construct, 'the mask `%s` was computed from `%s` before `%s` was re-bound, and indexes `%s` afterwards: it describes the '
                               'old array (its shape / order need not match)' % (m, x, x, norm(node)[:50]), fn.path, node.lineno, operand='stale-mask:' + m)
     return n
+
+
+# ---------------------------------------------------------------------------------------------------------------
+ABSTRACT_SCALARS = {'np.integer', 'numbers.Integral', 'numbers.Number', 'numbers.Real', 'np.number', 'np.generic', 'Number', 'Integral', 'Real',
+                    'np.floating', 'np.int_', 'np.float64', 'np.int64', 'np.signedinteger'}
+
+
+def none_decided_by_builtin_isinstance(fn: FuncInfo):
+    """(if node, parameter): an Optional parameter (annotated Optional / default None) is never compared with None; whether it was given
+    is decided by `isinstance(p, int)` / `(int, str)` / `float` in an `if`: numpy scalars (np.int64 from an array, np.float32) are not
+    instances of the builtin types and silently take the "not given" branch."""
+    a = fn.node.args
+    pos = a.posonlyargs + a.args
+    defaults = dict(zip([x.arg for x in pos[len(pos) - len(a.defaults):]], a.defaults))
+    defaults.update({x.arg: d for x, d in zip(a.kwonlyargs, a.kw_defaults) if d is not None})
+    opt = {p.arg for p in pos + a.kwonlyargs if (p.annotation is not None and ('Optional' in norm(p.annotation) or 'None' in norm(p.annotation)))
+           or (isinstance(defaults.get(p.arg), ast.Constant) and defaults[p.arg].value is None)}
+    if not opt:
+        return
+    none_tested = set()
+    for n in walk_no_nested(fn.node):
+        if isinstance(n, ast.Compare) and len(n.ops) == 1 and isinstance(n.ops[0], (ast.Is, ast.IsNot, ast.Eq, ast.NotEq)) \
+                and isinstance(n.comparators[0], ast.Constant) and n.comparators[0].value is None and isinstance(n.left, ast.Name):
+            none_tested.add(n.left.id)
+    for n in walk_no_nested(fn.node):
+        if not isinstance(n, (ast.If, ast.IfExp)):
+            continue
+        for c in ast.walk(n.test):
+            if isinstance(c, ast.Call) and norm(c.func) == 'isinstance' and len(c.args) == 2 and isinstance(c.args[0], ast.Name) \
+                    and c.args[0].id in opt and c.args[0].id not in none_tested:
+                t = c.args[1]
+                names = {norm(e) for e in (t.elts if isinstance(t, ast.Tuple) else [t])}
+                if not (names & {'int', 'float'} and not names & ABSTRACT_SCALARS):
+                    continue
+                # the branch taken when the isinstance test is False must IGNORE the parameter silently: it neither reads it nor raises
+                negated = False
+                u = n.test
+                while isinstance(u, ast.UnaryOp) and isinstance(u.op, ast.Not):
+                    negated = not negated
+                    u = u.operand
+                if u is not c:
+                    continue                                  # part of a larger condition: not decided here
+                if isinstance(n, ast.IfExp):
+                    other = [n.body] if negated else [n.orelse]
+                else:
+                    other = n.body if negated else n.orelse
+                pname = c.args[0].id
+                reads = any(isinstance(x, ast.Name) and x.id == pname for b in other for x in ast.walk(b))
+                raises = any(isinstance(x, ast.Raise) for b in other for x in ast.walk(b))
+                if other and not reads and not raises:
+                    yield n, pname
+
+
+def check_none_tests(ctx, rule: str, module_paths, floor: int = 0) -> int:
+    ctx.rule(rule, 'whether an Optional parameter was given is decided by comparing it with None, not by `isinstance(p, int / float / str)`: numpy '
+                   'scalars are not instances of the builtin types and would be treated as "not given"', floor=floor)
+    M = ctx.model
+    n = 0
+    for path in module_paths:
+        mod = M.module(path)
+        fns = [f for c in mod.classes.values() for f in list(c.methods.values()) + list(c.setters.values())] + list(mod.functions.values())
+        for fn in fns:
+            a = fn.node.args
+            if not any(isinstance(d, ast.Constant) and d.value is None for d in list(a.defaults) + [d for d in a.kw_defaults if d is not None]) and \
+                    not any(p.annotation is not None and 'Optional' in norm(p.annotation) for p in a.posonlyargs + a.args + a.kwonlyargs):
+                continue
+            construct = fn.qualname
+            ctx.instance(rule, construct)
+            n += 1
+            hits = list(none_decided_by_builtin_isinstance(fn))
+            ctx.obligation(rule, construct, not hits, {'decided_by_isinstance': [h[1] for h in hits]} if hits else None, nontrivial=bool(hits))
+            for node, p in hits[:1]:
+                ctx.violation(rule, construct, 'the Optional parameter `%s` is never compared with None; `%s` decides whether it was given, and a numpy '
+                              'scalar (np.int64, np.float32) is not an instance of the builtin type: it is silently treated as not given'
+                              % (p, norm(node.test)[:60]), fn.path, node.lineno, operand='isinstance-none:' + p)
+    return n
+
+
+def check_exact_matching(ctx, rule: str, module_paths, floor: int = 0) -> int:
+    """Parameter values are matched / compared exactly."""
+    ctx.rule(rule, 'parameter values are looked up and compared EXACTLY: no np.isclose / np.allclose / math.isclose with default tolerances in the '
+                   'parameter and result containers (two legal grid values closer than 1e-8 absolute / 1e-5 relative would be confused)', floor=floor)
+    M = ctx.model
+    n = 0
+    for path in module_paths:
+        mod = M.module(path)
+        fns = [f for c in mod.classes.values() for f in list(c.methods.values()) + list(c.getters.values()) + list(c.setters.values())]
+        fns += list(mod.functions.values())
+        for fn in fns:
+            construct = fn.qualname
+            ctx.instance(rule, construct)
+            n += 1
+            hits = [c for c in walk_no_nested(fn.node) if isinstance(c, ast.Call) and norm(c.func).split('.')[-1] in ('isclose', 'allclose')
+                    and not any(k.arg in ('atol', 'rtol', 'abs_tol', 'rel_tol') for k in c.keywords) and len(c.args) <= 2]
+            ctx.obligation(rule, construct, not hits, {'approximate': [norm(h)[:60] for h in hits]} if hits else None,
+                           nontrivial=any(isinstance(x, ast.Compare) for x in ast.walk(fn.node)))
+            for c in hits[:1]:
+                ctx.violation(rule, construct, '`%s` matches parameter values approximately (default tolerances 1e-8 absolute, 1e-5 relative): distinct '
+                              'values of a parameter grid (noise powers 1e-9 and 2e-9, carriers 1 kHz apart at 2.4 GHz) are taken for one another'
+                              % norm(c)[:70], fn.path, c.lineno, operand='approximate-match')
+    return n
+
+
+# ---------------------------------------------------------------------------------------------------------------
+def init_stores(model, cls, seen=None) -> set:
+    """attributes that cls.__init__ stores (directly, or through the __init__ of a base class it calls)"""
+    seen = seen or set()
+    if cls is None or cls.name in seen:
+        return set()
+    seen = seen | {cls.name}
+    fn = cls.methods.get('__init__')
+    if fn is None:
+        out = set()
+        for b in cls.bases:
+            out |= init_stores(model, b, seen)
+        return out
+    sn = fn.self_name
+    out = {n.attr for n in walk_no_nested(fn.node) if isinstance(n, ast.Attribute) and isinstance(n.ctx, ast.Store)
+           and isinstance(n.value, ast.Name) and n.value.id == sn}
+    for n in walk_no_nested(fn.node):
+        if isinstance(n, ast.Call) and isinstance(n.func, ast.Attribute) and n.func.attr == '__init__':
+            r = n.func.value
+            if isinstance(r, ast.Call) and norm(r.func) == 'super':
+                for b in model.mro(cls)[1:2]:
+                    out |= init_stores(model, b, seen)
+            elif isinstance(r, (ast.Name, ast.Attribute)) and norm(r) in model.classes:
+                out |= init_stores(model, model.classes[norm(r)], seen)
+    return out
+
+
+def stores_overwritten_by_super(model, cls):
+    """(store node, attribute, base class): in cls.__init__ an attribute is stored BEFORE the call of the base-class constructor,
+    and that constructor stores the same attribute: whatever the subclass put there is overwritten."""
+    fn = cls.methods.get('__init__')
+    if fn is None:
+        return
+    sn = fn.self_name
+    stmts = stmts_in_order(fn)
+    for i, s in enumerate(stmts):
+        if isinstance(s, (ast.If, ast.For, ast.While, ast.Try, ast.With)):
+            continue
+        for c in ast.walk(s):
+            if not (isinstance(c, ast.Call) and isinstance(c.func, ast.Attribute) and c.func.attr == '__init__'):
+                continue
+            r = c.func.value
+            base = None
+            if isinstance(r, ast.Call) and norm(r.func) == 'super':
+                mro = model.mro(cls)
+                base = mro[1] if len(mro) > 1 else None
+            elif isinstance(r, (ast.Name, ast.Attribute)) and norm(r) in model.classes:
+                base = model.classes[norm(r)]
+            if base is None:
+                continue
+            bs = init_stores(model, base)
+            for e in stmts[:i]:
+                if isinstance(e, (ast.If, ast.For, ast.While, ast.Try, ast.With)):
+                    continue
+                for n in ast.walk(e):
+                    if isinstance(n, ast.Attribute) and isinstance(n.ctx, ast.Store) and isinstance(n.value, ast.Name) and n.value.id == sn \
+                            and n.attr in bs:
+                        yield n, n.attr, base.name
+
+
+def check_init_order(ctx, rule: str, module_paths, floor: int = 0) -> int:
+    ctx.rule(rule, 'a constructor does not store an attribute before calling a base-class constructor that stores the same attribute (the value of '
+                   'the subclass would be overwritten)', floor=floor)
+    M = ctx.model
+    n = 0
+    for path in module_paths:
+        mod = M.module(path)
+        for c in mod.classes.values():
+            if '__init__' not in c.methods or not c.bases:
+                continue
+            construct = c.name + '.__init__'
+            ctx.instance(rule, construct)
+            n += 1
+            hits = list(stores_overwritten_by_super(M, c))
+            ctx.obligation(rule, construct, not hits, {'overwritten': sorted({h[1] for h in hits})} if hits else None, nontrivial=True)
+            for node, attr, base in hits[:1]:
+                ctx.violation(rule, construct, '`self.%s` is stored before the constructor of %s is called, and that constructor stores `%s` too: the value '
+                              'set by %s is overwritten' % (attr, base, attr, c.name), c.module.path, node.lineno, operand='overwritten:' + attr)
+    return n
+
+
+# ---------------------------------------------------------------------------------------------------------------
+def persistent_zero_buffers(fn: FuncInfo):
+    """(store node, attribute): an array attribute is (re)created with np.zeros / np.empty only under a condition on itself (`if
+    self._buf is None or self._buf.shape != shape: self._buf = np.zeros(shape)`) and is then written through a subscript - directly
+    or through a local alias - without being cleared first: on every call after the one that created it, the entries outside the
+    written region still hold what an EARLIER call stored there."""
+    sn = fn.self_name
+    if sn is None:
+        return
+    from .model import is_self_attr
+    lazy = {}
+    for n in walk_no_nested(fn.node):
+        if not isinstance(n, ast.If):
+            continue
+        tested = {x.attr for x in ast.walk(n.test) if isinstance(x, ast.Attribute) and isinstance(x.value, ast.Name) and x.value.id == sn}
+        for b in n.body:
+            for s in ast.walk(b):
+                if isinstance(s, (ast.Assign, ast.AnnAssign)) and getattr(s, 'value', None) is not None and isinstance(s.value, ast.Call) \
+                        and norm(s.value.func) in ('np.zeros', 'np.empty', 'numpy.zeros', 'numpy.empty', 'np.zeros_like', 'np.empty_like'):
+                    for t in (s.targets if isinstance(s, ast.Assign) else [s.target]):
+                        a = is_self_attr(t, sn)
+                        if a and a in tested:
+                            lazy[a] = n
+    if not lazy:
+        return
+    stmts = stmts_in_order(fn)
+    order = {id(s): i for i, s in enumerate(stmts)}
+    alias = {}
+    for s in stmts:
+        if isinstance(s, ast.Assign) and len(s.targets) == 1 and isinstance(s.targets[0], ast.Name):
+            a = is_self_attr(s.value, sn)
+            if a in lazy:
+                alias[s.targets[0].id] = a
+    for s in stmts:
+        if not isinstance(s, (ast.Assign, ast.AugAssign)):
+            continue
+        for t in (s.targets if isinstance(s, ast.Assign) else [s.target]):
+            if not isinstance(t, ast.Subscript):
+                continue
+            root = t.value
+            a = is_self_attr(root, sn) if isinstance(root, ast.Attribute) else alias.get(root.id) if isinstance(root, ast.Name) else None
+            if a not in lazy or order[id(s)] < order[id(lazy[a])]:
+                continue
+            if any(s is x for x in ast.walk(lazy[a])):
+                continue                                  # the fill that belongs to the creation itself
+            sl = t.slice
+            full = (isinstance(sl, ast.Slice) and sl.lower is None and sl.upper is None) or (isinstance(sl, ast.Constant) and sl.value is Ellipsis)
+            if full:
+                continue
+            # cleared between the conditional creation and this store?
+            cleared = False
+            for c in stmts[order[id(lazy[a])] + 1:order[id(s)]]:
+                if isinstance(c, ast.Assign):
+                    for t2 in c.targets:
+                        if isinstance(t2, ast.Subscript):
+                            r2 = t2.value
+                            a2 = is_self_attr(r2, sn) if isinstance(r2, ast.Attribute) else alias.get(r2.id) if isinstance(r2, ast.Name) else None
+                            s2 = t2.slice
+                            if a2 == a and ((isinstance(s2, ast.Slice) and s2.lower is None and s2.upper is None) or
+                                            (isinstance(s2, ast.Constant) and s2.value is Ellipsis)):
+                                cleared = True
+                if isinstance(c, ast.Expr) and isinstance(c.value, ast.Call) and isinstance(c.value.func, ast.Attribute) and c.value.func.attr == 'fill':
+                    r2 = c.value.func.value
+                    a2 = is_self_attr(r2, sn) if isinstance(r2, ast.Attribute) else alias.get(r2.id) if isinstance(r2, ast.Name) else None
+                    if a2 == a:
+                        cleared = True
+            if not cleared:
+                yield s, a
+                lazy.pop(a)
+                if not lazy:
+                    return
+
+
+def check_no_persistent_buffers(ctx, rule: str, module_paths, floor: int = 0) -> int:
+    ctx.rule(rule, 'a zero-initialised work array is not kept in the object between calls and only partly rewritten (conditional re-creation + '
+                   'subscript store without a clear): entries outside the rewritten region would leak from the previous call', floor=floor)
+    M = ctx.model
+    n = 0
+    for path in module_paths:
+        mod = M.module(path)
+        for c in mod.classes.values():
+            for fn in list(c.methods.values()) + list(c.getters.values()) + list(c.setters.values()):
+                if fn.self_name is None:
+                    continue
+                construct = fn.qualname
+                ctx.instance(rule, construct)
+                n += 1
+                hits = list(persistent_zero_buffers(fn))
+                ctx.obligation(rule, construct, not hits, {'buffers': [h[1] for h in hits]} if hits else None,
+                               nontrivial=any(isinstance(x, ast.Call) and norm(x.func) in ('np.zeros', 'np.empty') for x in ast.walk(fn.node)))
+                for node, a in hits[:1]:
+                    ctx.violation(rule, construct, '`self.%s` is created with zeros only when it is missing or has another shape, and `%s` rewrites only a '
+                                  'part of it: what an earlier call stored outside that part is still there' % (a, norm(node)[:60]),
+                                  fn.path, node.lineno, operand='buffer:' + a)
+    return n
